@@ -24,7 +24,11 @@ TD_TYPES = {(A("int"),): "int", (A("str"),): "str", (A("float"),): "float", (A("
 LITS = [i for i, n in enumerate(u6.OBJ_NAMES) if n not in ("instC",)]
 
 F_DIFFLEN = "C06-star-union-different-lengths"
+F_EQLIT = "C06-equal-literal-alternatives-collapse"
 FINDING_TEXT = {
+    F_EQLIT: "two alternatives of a splat argument that compare equal as Python objects although their elements have different types "
+             "(`(True,)` and `(1,)`, `(1,)` and `(1.0,)`) are one KnownValue for unite_values (KnownValue equality is `==` on the whole tuple; dict displays are not affected), "
+             "so the later alternative disappears from the union: `xs = (True,) if c else (1,)`; `f(*xs)` for `def f(p0: bool)` is accepted although the second alternative passes an int",
     F_DIFFLEN: "a `*args` argument that is a union of tuples of DIFFERENT lengths is merged into one sequence of unknown length whose element type is the union of all elements "
                "(concrete_values_from_iterable), so `xs = (1, \"a\") if c else (2,)`; `f(*xs)` for `def f(a: int, b: str = \"\")` is diagnosed although every alternative binds and passes members only, "
                "and `xs = (1, 2, 3) if c else ()`; `g(*xs)` for `def g(a: object)` is accepted although no alternative binds",
@@ -245,3 +249,24 @@ def model_call(sig, case):
         else:
             kw.append([key, union([t for alt in case["alts"] for k2, t, _ in alt if k2 == key])])
     return {"pos": pos, "kw": kw, "star": None, "starkw": None}
+
+
+def collapse_equal(case):
+    """the case as pyanalyze sees it after unite_values dropped every literal alternative that is == to an
+    earlier one; None when nothing is dropped (TypedDict alternatives are types, not literals)"""
+    if case["kind"] != "starlit":
+        return None  # dict displays are DictIncompleteValues: their values are compared one by one, with their types
+    def py(alt):
+        if case["kind"] == "starlit":
+            return tuple(u6.obj_value(o) for o in alt)
+        return {k: u6.obj_value(o) for k, o in alt}
+    kept, vals = [], []
+    for alt in case["alts"]:
+        v = py(alt)
+        if any(type(v) is type(w) and v == w for w in vals):
+            continue
+        kept.append(alt)
+        vals.append(v)
+    if len(kept) == len(case["alts"]):
+        return None
+    return dict(case, alts=kept)
